@@ -170,7 +170,131 @@ pub fn paint(font: &[u8], gid: u32, cached: bool) -> Result<(String, Vec<&'stati
     Ok((res, rec.out, visits))
 }
 
+// ---- paint graphs of real COLR fonts ----------------------------------------------------------------
+use read_fonts::tables::colr::{Colr as RColr, Paint as RPaint};
+use read_fonts::TableProvider;
+use std::collections::HashMap;
+
+struct Extract<'a> {
+    colr: RColr<'a>,
+    by_addr: HashMap<usize, usize>,
+    nodes: Vec<Value>,
+}
+impl<'a> Extract<'a> {
+    /// the node (1-based) of a paint table, keyed by its address so that shared tables are one node
+    fn node(&mut self, paint: &RPaint<'a>, clip: bool) -> Result<usize, String> {
+        let addr = paint.offset_data().as_bytes().as_ptr() as usize;
+        if let Some(i) = self.by_addr.get(&addr) {
+            return Ok(*i);
+        }
+        if self.nodes.len() >= 160 {
+            return Err("graph too large for one event".into());
+        }
+        let idx = self.nodes.len() + 1;
+        self.by_addr.insert(addr, idx);
+        self.nodes.push(Value::Null);
+        let e = |e: read_fonts::ReadError| format!("{e}");
+        let (kind, kids): (&str, Vec<usize>) = match paint {
+            RPaint::Solid(_) | RPaint::VarSolid(_) | RPaint::LinearGradient(_) | RPaint::VarLinearGradient(_) | RPaint::RadialGradient(_) | RPaint::VarRadialGradient(_)
+            | RPaint::SweepGradient(_) | RPaint::VarSweepGradient(_) => ("solid", vec![]),
+            RPaint::Glyph(p) => ("glyph", vec![self.node(&p.paint().map_err(e)?, false)?]),
+            RPaint::ColrGlyph(p) => {
+                let g = p.glyph_id();
+                let Some((base, _)) = self.colr.v1_base_glyph(g.into()).map_err(e)? else { return Err("PaintColrGlyph names a glyph without a base paint".into()) };
+                let has_clip = matches!(self.colr.v1_clip_box(g.into()), Ok(Some(_)));
+                ("colrglyph", vec![self.node(&base, has_clip)?])
+            }
+            RPaint::ColrLayers(p) => {
+                let first = p.first_layer_index() as usize;
+                let mut kids = vec![];
+                for i in 0..p.num_layers() as usize {
+                    let (lp, _) = self.colr.v1_layer(first + i).map_err(e)?;
+                    kids.push(self.node(&lp, false)?);
+                }
+                ("layers", kids)
+            }
+            RPaint::Composite(p) => {
+                let b = self.node(&p.backdrop_paint().map_err(e)?, false)?;
+                let s = self.node(&p.source_paint().map_err(e)?, false)?;
+                ("composite", vec![b, s])
+            }
+            RPaint::Transform(p) => ("transform", vec![self.node(&p.paint().map_err(e)?, false)?]),
+            RPaint::VarTransform(p) => ("transform", vec![self.node(&p.paint().map_err(e)?, false)?]),
+            RPaint::Translate(p) => ("transform", vec![self.node(&p.paint().map_err(e)?, false)?]),
+            RPaint::VarTranslate(p) => ("transform", vec![self.node(&p.paint().map_err(e)?, false)?]),
+            RPaint::Scale(p) => ("transform", vec![self.node(&p.paint().map_err(e)?, false)?]),
+            RPaint::VarScale(p) => ("transform", vec![self.node(&p.paint().map_err(e)?, false)?]),
+            RPaint::ScaleAroundCenter(p) => ("transform", vec![self.node(&p.paint().map_err(e)?, false)?]),
+            RPaint::VarScaleAroundCenter(p) => ("transform", vec![self.node(&p.paint().map_err(e)?, false)?]),
+            RPaint::ScaleUniform(p) => ("transform", vec![self.node(&p.paint().map_err(e)?, false)?]),
+            RPaint::VarScaleUniform(p) => ("transform", vec![self.node(&p.paint().map_err(e)?, false)?]),
+            RPaint::ScaleUniformAroundCenter(p) => ("transform", vec![self.node(&p.paint().map_err(e)?, false)?]),
+            RPaint::VarScaleUniformAroundCenter(p) => ("transform", vec![self.node(&p.paint().map_err(e)?, false)?]),
+            RPaint::Rotate(p) => ("transform", vec![self.node(&p.paint().map_err(e)?, false)?]),
+            RPaint::VarRotate(p) => ("transform", vec![self.node(&p.paint().map_err(e)?, false)?]),
+            RPaint::RotateAroundCenter(p) => ("transform", vec![self.node(&p.paint().map_err(e)?, false)?]),
+            RPaint::VarRotateAroundCenter(p) => ("transform", vec![self.node(&p.paint().map_err(e)?, false)?]),
+            RPaint::Skew(p) => ("transform", vec![self.node(&p.paint().map_err(e)?, false)?]),
+            RPaint::VarSkew(p) => ("transform", vec![self.node(&p.paint().map_err(e)?, false)?]),
+            RPaint::SkewAroundCenter(p) => ("transform", vec![self.node(&p.paint().map_err(e)?, false)?]),
+            RPaint::VarSkewAroundCenter(p) => ("transform", vec![self.node(&p.paint().map_err(e)?, false)?]),
+        };
+        self.nodes[idx - 1] = json!({"kind": kind, "kids": kids, "clip": clip});
+        Ok(idx)
+    }
+}
+
+/// every COLRv1 glyph of the repository's colour fonts: the paint graph as the table has it, painted by skrifa
+fn corpus(ev: &mut Vec<Value>, rep: &mut Report) {
+    for dir in ["/repo/font-test-data/test_data/ttf", "/repo/klippa/test-data/fonts"] {
+        let Ok(rd) = std::fs::read_dir(dir) else { continue };
+        let mut files: Vec<_> = rd.filter_map(|e| e.ok()).map(|e| e.path()).filter(|p| p.extension().map(|e| e == "ttf").unwrap_or(false)).collect();
+        files.sort();
+        for path in files {
+            let Ok(bytes) = std::fs::read(&path) else { continue };
+            let Ok(f) = FontRef::new(&bytes) else { continue };
+            let Ok(colr) = f.colr() else { continue };
+            if colr.version() < 1 {
+                continue;
+            }
+            let name = path.file_name().unwrap().to_string_lossy().to_string();
+            let n = f.maxp().map(|m| m.num_glyphs() as u32).unwrap_or(0);
+            let mut painted = 0;
+            for gid in 0..n {
+                let Ok(Some((root, _))) = colr.v1_base_glyph(GlyphId::new(gid)) else { continue };
+                let mut ex = Extract { colr: colr.clone(), by_addr: HashMap::new(), nodes: vec![] };
+                let has_clip = matches!(colr.v1_clip_box(GlyphId::new(gid)), Ok(Some(_)));
+                if ex.node(&root, has_clip).is_err() {
+                    rep.add("corpus_graphs_skipped", 1);
+                    continue;
+                }
+                for cached in [false, true] {
+                    rep.evaluations += 1;
+                    match paint(&bytes, gid, cached) {
+                        Err(e) => rep.violation(&format!("{name} glyph {gid}: painting: {e}"), json!({"kind": "paint-corpus", "font": name, "glyph": gid})),
+                        Ok((res, out, visits)) => {
+                            ev.push(json!({"op": "paint", "nodes": ex.nodes, "cached": cached, "res": res, "out": out, "visits": visits, "font": name, "glyph": gid}));
+                            painted += 1;
+                        }
+                    }
+                }
+            }
+            rep.add("corpus_fonts", 1);
+            rep.add("corpus_paints", painted);
+        }
+    }
+}
+
 pub fn main(args: &[String]) {
+    if args.iter().any(|a| a == "--corpus") {
+        let mut rep = Report::default();
+        let mut ev = vec![];
+        corpus(&mut ev, &mut rep);
+        rep.traces = ev.len() as u64;
+        rep.distinct = ev.len() as u64;
+        fvcore::write_ndjson(&arg_after(args, "--out").expect("--out"), &ev);
+        rep.finish();
+    }
     let cases = arg_after(args, "--cases").expect("--cases");
     let outp = arg_after(args, "--out").expect("--out");
     let mut rep = Report::default();
